@@ -4,6 +4,7 @@ C13 — headline statements under the single hypothesis `WFnames`.
 import MxlVerif.Lemmas.NamesFinal
 import MxlVerif.Lemmas.Total
 import MxlVerif.Lemmas.ClassifyComplete
+import MxlVerif.Lemmas.ClassesExact
 namespace Mxl.C13
 open Mxl
 
@@ -57,6 +58,48 @@ theorem C13_static_iff_names {c : Content} (hn : WFnames c)
     k ∈ (classify c cache.order [] [] (omKeys c.pars)).2.2 ↔
       k ∈ omKeys c.pars ∨ OnlyParams c k :=
   createCache_classify_exact (WFd_of_names c hn) (DerivedDistinct_of_names hn) h hk
+
+/-- **A derived quantity is reported as a derived parameter exactly when it depends, through any
+    chain, only on parameters.**  About `getClasses` = (`get_derived_parameter_names`,
+    `get_derived_variable_names`), the function the driver runs: whenever it answers (any
+    declaration order), the first list holds exactly the derived quantities satisfying `OnlyParams`
+    (every argument is a parameter — plain or assignment-defined — or again such a derived
+    quantity), the second list exactly the others; both keep declaration order and together they
+    are all derived quantities, each once. -/
+theorem C13_derived_parameters_exact {c : Content} (hn : WFnames c) {dp dv : List Name}
+    (h : getClasses c = .ok (dp, dv)) :
+    (∀ k, k ∈ dp ↔ k ∈ omKeys c.derived ∧ OnlyParams c k) ∧
+    (∀ k, k ∈ dv ↔ k ∈ omKeys c.derived ∧ ¬ OnlyParams c k) ∧
+    dp.Sublist (omKeys c.derived) ∧ dv.Sublist (omKeys c.derived) ∧
+    (∀ k, dp.count k + dv.count k = (omKeys c.derived).count k) :=
+  getClasses_exact hn h
+
+/-- **What is frozen**: the cache's parameter table (the values that do not change with state or
+    time, `C13_parameters_frozen`) holds exactly the parameters — plain or assignment-defined —
+    and the derived quantities that depend, through any chain, only on parameters. -/
+theorem C13_parameter_table_exact {c : Content} (hn : WFnames c) {cache : Cache}
+    (hc : createCache c = .ok cache) (n : Name) :
+    n ∈ omKeys cache.allPars ↔ n ∈ omKeys c.pars ∨ (n ∈ omKeys c.derived ∧ OnlyParams c n) :=
+  allPars_keys_exact hn hc n
+
+/-- **What is recomputed**: per state and time `_get_args` re-evaluates exactly the reactions, the
+    surrogates and the derived quantities that do *not* depend on parameters only. -/
+theorem C13_dynamic_exact {c : Content} (hn : WFnames c) {cache : Cache}
+    (hc : createCache c = .ok cache) {k : Name} (hk : k ∈ cache.order) :
+    k ∈ cache.dynOrder ↔ (isRS c k = true ∨ (k ∈ omKeys c.derived ∧ ¬ OnlyParams c k)) :=
+  dynOrder_spec hn hc hk
+
+/-- the classification is a property of the graph alone: two contents with the same parameters
+    names and the same derived quantities (as a lookup table) have the same `OnlyParams` — so
+    neither declaration order, nor values, nor the state can change what is a derived parameter -/
+theorem C13_onlyParams_congr {c c' : Content}
+    (hp : ∀ n, n ∈ omKeys c'.pars ↔ n ∈ omKeys c.pars)
+    (hd : ∀ k, c'.derived.lookup k = c.derived.lookup k) {k : Name} (h : OnlyParams c k) :
+    OnlyParams c' k := by
+  induction h with
+  | mk k d hk _ ih =>
+    exact OnlyParams.mk k d (by rw [hd]; exact hk)
+      (fun a ha hna => ih a ha (fun hm => hna ((hp a).mpr hm)))
 
 /-- **No spurious failure**: distinct names and a complete acyclic graph suffice for
     `_create_cache` to return. -/
